@@ -37,6 +37,54 @@ end
 def applyPatch (body : J) (patch : List (String × J)) : Except DictErr J :=
   applyKvs body [] patch
 
+/-! ## specification vocabulary for the fidelity clause -/
+
+/-- The value at `path` if it is a *leaf* (anything but a mapping). Two objects with the same
+    `leafAt` function are equal up to key order and the presence of empty mappings. -/
+def leafAt : J → List String → Option J
+  | .obj _, [] => none
+  | .obj kvs, k :: ks =>
+      match lookup k kvs with
+      | some v => leafAt v ks
+      | none => none
+  | j, [] => some j
+  | _, _ :: _ => none
+
+/-- "equal up to (key order and) the presence of empty mappings" -/
+def LeafEq (a b : J) : Prop := ∀ p, leafAt a p = leafAt b p
+
+mutual
+  /-- remove keys whose value is (recursively) an empty mapping; lists are opaque leaves. -/
+  def dropEmpty : J → J
+    | .obj kvs => .obj (dropEmptyKvs kvs)
+    | j => j
+  def dropEmptyKvs : List (String × J) → List (String × J)
+    | [] => []
+    | (k, v) :: rest =>
+        match dropEmpty v with
+        | .obj [] => dropEmptyKvs rest
+        | v' => (k, v') :: dropEmptyKvs rest
+end
+
+mutual
+  /-- the patch value `v` is well-typed over the target `t` (`none` = absent key): patch mappings
+      only descend into mappings or absent keys. Leaf and `null` instructions are always fine. -/
+  def wtAt (t : Option J) : J → Bool
+    | .obj pk =>
+        match t with
+        | none => true
+        | some (.obj tk) => wtKvs tk pk
+        | some _ => false
+    | _ => true
+  def wtKvs (tk : List (String × J)) : List (String × J) → Bool
+    | [] => true
+    | (k, v) :: rest => wtAt (lookup k tk) v && wtKvs tk rest
+end
+
+/-- `patch` (a Python dict: keys unique at every level) is well-typed over `body`. -/
+def WellTyped (body : J) (patch : List (String × J)) : Prop :=
+  wtAt (some body) (.obj patch) = true ∧ J.wf (.obj patch) = true
+
 /-! ## transformation functions (`patch.fns`) — the two the framework itself queues:
       `functools.partial(finalizers.block_deletion, finalizer=f)` and `…allow_deletion…`. -/
 
